@@ -113,7 +113,8 @@ def r06_2(ctx: Ctx) -> None:
     for fam, funcs in families.items():
         for f in funcs:
             # every Worker(...) construction / seek that positions the handle must use a start that includes packpos
-            starts = [c for c in q.calls(f) if attr_tail(c) == "Worker"] + [c for c in q.calls(f) if attr_tail(c) == "seek" and norm(c.func.value) == "self.fp"] \
+            starts = [c for c in q.calls(f) if attr_tail(c) == "Worker"] + [c for c in q.calls(f) if attr_tail(c) == "seek" and norm(c.func.value) == "self.fp"
+                                                                              and not (len(c.args) == 1 and isinstance(c.args[0], ast.Constant) and c.args[0].value == 0)] \
                 + ([c for c in q.calls(f) if attr_tail(c) == "_read_digest"] if f.name == "test" else [])
             if not starts:
                 continue
